@@ -143,7 +143,40 @@ def match_known(v, known):
     return None
 
 
+def _shrink_child(conn, mod_name, case, viol, props, budget_s):
+    _worker_init()
+    try:
+        mod = importlib.import_module(mod_name)
+        conn.send(_shrink_here(mod, case, viol, props, budget_s))
+    except BaseException:
+        conn.send(None)
+    finally:
+        conn.close()
+
+
 def shrink(mod, case, viol, props, budget_s=60):
+    """Shrinking runs in a child process: the parent never executes the tree under test (a broken tree can crash an
+    engine natively, and the parent must survive to report the violation).  If the child dies, the unshrunk case is kept."""
+    if not hasattr(mod, 'shrink_candidates'):
+        return case, viol
+    ctx = mp.get_context('fork')
+    pc, cc = ctx.Pipe(duplex=False)
+    pr = ctx.Process(target=_shrink_child, args=(cc, mod.__name__, case, viol, props, budget_s))
+    pr.start()
+    cc.close()
+    out = None
+    try:
+        if pc.poll(budget_s + 120):
+            out = pc.recv()
+    except EOFError:
+        out = None
+    pr.join(5)
+    if pr.is_alive():
+        pr.kill()
+    return out if out else (case, viol)
+
+
+def _shrink_here(mod, case, viol, props, budget_s=60):
     """Greedy structural shrinking: accept a candidate iff the same signature persists."""
     if not hasattr(mod, 'shrink_candidates'):
         return case, viol
